@@ -234,6 +234,25 @@ PROPS['C05'] = {
         'unify, get_rule, Rule::get_head/get_body, Goal::key, get_var_id/set_var_id are ABSTRACT in this unit (signature only, arbitrary results): the clauses hold for every behaviour of theirs that returns; their own panics are outside (C06, C10, C18 cover them under their preconditions)',
     ],
 }
+PROPS['C01'] = {
+    'units': ['solver'],
+    'functions': SOLVER_FNS,
+    'oracles': {'*': 'c01_prog', '#solve_all': 'c01_solve_all'},
+    'bounded': [('c01_prog', 'the equivalence itself, BOUNDED: 3000 random stratified programs per seed (facts; rules of three levels calling lower levels only; conjunction, disjunction in one level of parentheses, unification, comparisons, count / append, '
+                             'not, fail, print; partly instantiated structures; no cut) - the engine\'s answers (in order, with multiplicity, variables normalised) against a reference interpreter written from the statement (depth-first, left to right, clause order); '
+                             'programs that build cyclic bindings or exceed the step limit are skipped'),
+                ('c01_solve_all', 'solve_all() on 1500 random programs per seed: the same answers, each as `$Var = value` for the variables among the query\'s arguments in argument order')],
+    'not_covered': [
+        'PARTIAL.  PROVED (Verus, verbatim bodies over the node heap): the structural facts the search order rests on - the clause loop fetches the clauses of the goal\'s predicate one by one in index order, each at most once per request chain (#clause_order); '
+        'the body of the chosen clause runs under the bindings unification of its head with the goal gave (#body_under_unifier); the goals after the first goal of a conjunction run under the bindings of the first goal\'s answer (#conjunction_threads_bindings); '
+        'the later alternatives of a disjunction run under the bindings the disjunction was entered with and are exactly the remaining operands (#alternatives_share_bindings) - substitution sets are immutable values (Rc<Vec>, never written after creation), '
+        'so nothing an abandoned alternative has bound can appear in a later answer; an exhausted node yields nothing more (C05); a flagged node yields nothing more (C02)',
+        'NOT PROVED, bounded only: that the answers are exactly those of depth-first, left-to-right, clause-order resolution, in that order and multiplicity - a whole-history equivalence with a reference semantics, modulo renaming of unbound variables '
+        '(clause renaming draws ids from a global counter that the search also rewinds); the random-program comparison stands in for it, labelled bounded',
+        'format_solution (the `$Var = value` text of solve / solve_all) is not under contract; the bounded oracle c01_solve_all compares its output',
+        'outside: parenthesised groups nested in groups (tokenizer, 8.25) and a cut inside a group with goals to its right inside the group (8.26) - observations, not generated',
+    ],
+}
 PROPS['C04'] = {
     'units': ['print', 'solver'],
     'functions': ['built_in_print.rs::format_for_print_pred', 'built_in_print.rs::next_solution_print'],
